@@ -23,8 +23,10 @@ import (
 	"sort"
 	"strings"
 	"sync"
+	"sync/atomic"
 	"testing"
 	"time"
+	"unsafe"
 
 	"oss.terrastruct.com/d2/d2compiler"
 	"oss.terrastruct.com/d2/d2graph"
@@ -35,6 +37,7 @@ import (
 	"oss.terrastruct.com/d2/d2renderers/d2svg"
 	"oss.terrastruct.com/d2/d2target"
 	"oss.terrastruct.com/d2/lib/textmeasure"
+	"oss.terrastruct.com/d2/lib/verifhook"
 	"oss.terrastruct.com/util-go/go2"
 
 	"verifsim/corpus"
@@ -195,6 +198,97 @@ func Execute(sp Spec, park func(stage string)) (out Output) {
 	return
 }
 
+const (
+	modeStages = iota
+	modePoints
+	modeStores
+	modeSites
+)
+
+type taskCtx struct {
+	idx, spec   int
+	gid         uint64
+	budget      int64
+	park        func(stage string)
+	target      string // stop after targetLeft more executions of this store site
+	targetLeft  int
+	noPair      bool
+	forceTarget string // set by the scheduler while the task is parked
+}
+
+// profileShared finds the store sites that write memory which outlives one execution: every
+// spec is executed twice in a row, alone, with the garbage collector off (so that no address
+// is ever reused), and a site is "shared" when the second execution stores to an address
+// the first one stored to. Fresh allocations of an execution can never collide; what does
+// is package-level state and whatever hangs off it (tables, caches, scratch buffers,
+// registries). The result is a pure function of the specs.
+func profileShared(specs []Spec, salt uint64) []string {
+	old := debug.SetGCPercent(-1)
+	defer debug.SetGCPercent(old)
+	runtime.VerifSimEnable(salt | 1)
+	defer runtime.VerifSimDisable()
+	hot := map[string]bool{}
+	done := map[string]bool{}
+	var mu sync.Mutex
+	for _, sp := range specs {
+		if done[sp.Key()] {
+			continue
+		}
+		done[sp.Key()] = true
+		first := map[uintptr]string{}
+		pass := 1
+		verifhook.YieldFn = func(point string, arg any) {
+			if arg == nil || len(point) == 0 || point[0] != 'w' {
+				return
+			}
+			a := uintptr((*[2]unsafe.Pointer)(unsafe.Pointer(&arg))[1])
+			if a == 0 {
+				return
+			}
+			mu.Lock()
+			if pass == 1 {
+				first[a] = point
+			} else if s1, ok := first[a]; ok {
+				hot[s1], hot[point] = true, true
+			}
+			mu.Unlock()
+		}
+		Execute(sp, nil)
+		mu.Lock()
+		pass = 2
+		mu.Unlock()
+		Execute(sp, nil)
+		verifhook.YieldFn = nil
+	}
+	var out []string
+	for s := range hot {
+		out = append(out, s)
+	}
+	sort.Strings(out)
+	return out
+}
+
+type pairReq struct {
+	task, spec int
+	site       string
+}
+
+const maxSwitches = 3000
+
+var stmtPoints, switches, heldBack atomic.Int64
+
+// sliceLen draws how many scheduling points a task passes before it loses the CPU again:
+// log-uniform between 1 and about 130 000 points (16 000 stores), so that both "stop right here, two statements
+// after the last stop" and "run through a whole stage" are common.
+func sliceLen(tp *tape.Tape, storesOnly bool) int64 {
+	n := 17
+	if storesOnly {
+		n = 14 // stores are a small fraction of the points
+	}
+	e := tp.Draw(n, "stmt.exp")
+	return int64(1)<<e + int64(tp.Draw(1<<e, "stmt.frac"))
+}
+
 func firstFrames(b []byte) string {
 	lines := strings.Split(string(b), "\n")
 	var keep []string
@@ -237,7 +331,11 @@ func drawSpec(tp *tape.Tape, idx int, render, thorough bool, first bool) Spec {
 	if !render {
 		maxLen = 200000
 	}
-	if tp.Chance(1, 3, "spec.generated") {
+	if render && tp.Chance(2, 5, "spec.generated.render") {
+		scr, files := d2gen.RenderScript(tp)
+		sp.Script, sp.Files = []byte(scr), toBytes(files)
+		sp.Name = "generated"
+	} else if tp.Chance(1, 3, "spec.generated") {
 		scr, files := d2gen.Script(tp)
 		sp.Script, sp.Files = []byte(scr), toBytes(files)
 		sp.Name = "generated"
@@ -324,7 +422,48 @@ func Run(t *testing.T, cfg harness.Config, idx int, tp *tape.Tape) (res harness.
 		}
 	}
 	fontTask := tp.Chance(1, 4, "session.fonttask")
+	// Statement-level interleaving (three quarters of the sessions, when the build carries
+	// the scheduling points of cmd/yieldgen): a task also loses the CPU in the middle of a
+	// stage, after a tape-chosen number of statements, unless it holds a lock.
+	// modePoints: after a tape-chosen number of scheduling points of any kind.
+	// modeStores: only right after a store to a field, an element or a pointee (a window in
+	//   which shared state is half-updated always opens with one).
+	// modeSites:  right after a tape-chosen store site, then a partner task is run up to the
+	//   same site and the first task continues ("pair").
+	mode := tp.Weighted([]int{2, 2, 2, 4}, "session.mode")
+	pairs := 0
 	salt := uint64(tp.Draw(1<<30, "runtime.salt"))
+	var hot []string
+	if mode == modePoints || mode == modeStores {
+		// Warm-up: where a task stops is counted in scheduling points, and the first
+		// execution of an input in a process passes more of them than later ones (lazily
+		// built tables, font and measurement caches). One execution of every input before
+		// the scheduled ones makes the count independent of what the process did before.
+		runtime.VerifSimEnable(salt | 1)
+		seen := map[string]bool{}
+		for _, sp := range specs {
+			if !seen[sp.Key()] {
+				seen[sp.Key()] = true
+				Execute(sp, nil)
+			}
+		}
+		runtime.VerifSimDisable()
+	}
+	if mode == modeSites {
+		hot = profileShared(specs, salt)
+		if os.Getenv("VSIM_SHOWHOT") != "" && len(hot) > 0 {
+			fmt.Fprintf(os.Stderr, "HOT %v\n", hot)
+		}
+	}
+	if len(hot) > 0 {
+		// State shared between executions is where interleavings matter: more copies of
+		// every input, so that there are more partners and more attempts.
+		for i := range specs {
+			for r := 0; r < 3; r++ {
+				execs = append(execs, &exec{spec: i})
+			}
+		}
+	}
 	var order []string
 	var mapRands uint64
 
@@ -336,6 +475,16 @@ func Run(t *testing.T, cfg harness.Config, idx int, tp *tape.Tape) (res harness.
 				res.HarnessError = fmt.Sprintf("panic: %v\n%s", p, debug.Stack())
 			}
 		}()
+		// The font task registers font families for good; the registry is put back at the
+		// end of the session so that the next session of this process starts like the first.
+		d2fonts.FontFamiliesMu.Lock()
+		baseFamilies := len(d2fonts.FontFamilies)
+		d2fonts.FontFamiliesMu.Unlock()
+		defer func() {
+			d2fonts.FontFamiliesMu.Lock()
+			d2fonts.FontFamilies = d2fonts.FontFamilies[:baseFamilies:baseFamilies]
+			d2fonts.FontFamiliesMu.Unlock()
+		}()
 		sim := sched.NewSequential(tp)
 		runtime.VerifSimEnable(salt + 1)
 		defer runtime.VerifSimDisable()
@@ -343,14 +492,111 @@ func Run(t *testing.T, cfg harness.Config, idx int, tp *tape.Tape) (res harness.
 		var mu sync.Mutex
 		remaining := len(execs)
 		started := 0
+		var cur atomic.Pointer[taskCtx]
+		tasks := make([]*taskCtx, len(execs))
+		var sites []string           // distinct store sites in order of first execution (this session)
+		siteSeen := map[string]bool{} // (one task runs at a time: no lock needed)
+		var pair *pairReq
+		// nextSlice decides, in the goroutine that was just released, how far it runs now.
+		nextSlice := func(t *taskCtx) {
+			t.target, t.noPair = "", false
+			if t.forceTarget != "" {
+				// partner of a pair: run until the site where the other task stopped
+				t.target, t.targetLeft, t.noPair, t.forceTarget = t.forceTarget, 1+tp.Draw(2, "pair.occurrence"), true, ""
+				t.budget = 1 << 22
+				return
+			}
+			if mode == modeSites && len(hot) > 0 && tp.Chance(4, 5, "stmt.hot") {
+				// a store site that writes state shared between executions
+				t.target = hot[tp.Draw(len(hot), "stmt.whichhot")]
+				t.targetLeft = 1 + tp.Draw(6, "stmt.occurrence")
+				t.budget = 1 << 22
+				return
+			}
+			if mode == modeSites && len(sites) > 0 && tp.Chance(3, 4, "stmt.site") {
+				// stop right after the k-th next execution of one store site, every site
+				// that was executed so far being equally likely (a store that runs twice per
+				// compilation is as likely a stop as one that runs a million times)
+				t.target = sites[tp.Draw(len(sites), "stmt.whichsite")]
+				t.targetLeft = 1 + tp.Draw(3, "stmt.occurrence")
+				t.budget = 1 << 22
+				return
+			}
+			t.budget = sliceLen(tp, mode != modePoints)
+		}
+		if mode != modeStages {
+			verifhook.YieldFn = func(point string, _ any) {
+				if len(point) == 0 || (point[0] != 's' && point[0] != 'w') {
+					return
+				}
+				stmtPoints.Add(1)
+				store := point[0] == 'w'
+				if store && !siteSeen[point] {
+					siteSeen[point] = true
+					sites = append(sites, point)
+				}
+				t := cur.Load()
+				if t == nil || t.gid != runtime.VerifGID() {
+					return // not a task's own goroutine
+				}
+				if t.target != "" {
+					if !store || point != t.target {
+						t.budget--
+						if t.budget > 0 {
+							return
+						}
+					} else {
+						t.targetLeft--
+						if t.targetLeft > 0 {
+							return
+						}
+					}
+				} else {
+					if mode != modePoints && !store {
+						return
+					}
+					t.budget--
+					if t.budget > 0 {
+						return
+					}
+				}
+				if runtime.VerifLocksHeld() > 0 {
+					// whoever wants that lock next could not be parked: try again soon
+					t.budget, t.targetLeft = 4, 1
+					heldBack.Add(1)
+					return
+				}
+				if switches.Load() >= maxSwitches {
+					t.target, t.budget = "", 1<<60
+					return
+				}
+				switches.Add(1)
+				if t.target != "" && store && point == t.target && !t.noPair {
+					pair = &pairReq{task: t.idx, spec: t.spec, site: point}
+				}
+				t.park("stmt")
+			}
+			defer func() { verifhook.YieldFn = nil }()
+		}
 		for i, e := range execs {
 			i, e := i, e
 			started++
+			t := &taskCtx{idx: i, spec: e.spec, budget: 1 << 60}
+			tasks[i] = t
 			go func() {
 				defer sim.TaskDone()
-				park := func(stage string) { sim.Yield(fmt.Sprintf("task%02d:%s", i, stage)) }
-				park("start")
-				e.out = Execute(specs[e.spec], park)
+				t.gid = runtime.VerifGID()
+				t.park = func(stage string) {
+					cur.Store(nil)
+					sim.Yield(fmt.Sprintf("task%02d:%s", i, stage))
+					cur.Store(t)
+					if mode != modeStages && (stage == "stmt" || stage == "start" || t.forceTarget != "") {
+						nextSlice(t)
+					}
+				}
+				defer cur.Store(nil)
+				t.park("start")
+				e.out = Execute(specs[e.spec], t.park)
 				mu.Lock()
 				e.done = true
 				remaining--
@@ -368,12 +614,55 @@ func Run(t *testing.T, cfg harness.Config, idx int, tp *tape.Tape) (res harness.
 			}()
 		}
 		sim.AwaitEvents(started) // every task sits at its first park point
-		for steps := 0; steps < 5000; steps++ {
+		taskKey := func(idx int) string {
+			pre := fmt.Sprintf("task%02d:", idx)
+			for _, k := range sim.ParkedKeys() {
+				if strings.HasPrefix(k, pre) {
+					return k
+				}
+			}
+			return ""
+		}
+		for steps := 0; steps < 12000; steps++ {
 			mu.Lock()
 			r := remaining
 			mu.Unlock()
 			if r == 0 {
 				break
+			}
+			if p := pair; p != nil {
+				// Task p.task stopped right after a store at p.site. Let another task
+				// (a copy of the same input if there is one) run until it has executed the
+				// same store, then give the CPU back to the first: if the two stores hit
+				// the same memory, the first task now reads what the second one wrote.
+				pair = nil
+				var same, other []int
+				for _, t := range tasks {
+					if t.idx == p.task || taskKey(t.idx) == "" {
+						continue
+					}
+					if t.spec == p.spec {
+						same = append(same, t.idx)
+					} else {
+						other = append(other, t.idx)
+					}
+				}
+				cands := same
+				if len(cands) == 0 || tp.Chance(1, 5, "pair.other") {
+					cands = append(cands, other...)
+				}
+				if len(cands) > 0 {
+					b := cands[tp.Draw(len(cands), "pair.partner")]
+					tasks[b].forceTarget = p.site
+					kb := taskKey(b)
+					sim.Step(false, func(k string) bool { return k == kb })
+					pair = nil
+					if ka := taskKey(p.task); ka != "" {
+						sim.Step(false, func(k string) bool { return k == ka })
+					}
+					pairs++
+					continue
+				}
 			}
 			if !sim.Step(false, nil) {
 				res.HarnessError = "pipeline tasks are blocked without being parked"
@@ -448,6 +737,15 @@ func Run(t *testing.T, cfg harness.Config, idx int, tp *tape.Tape) (res harness.
 	res.Nontrivial = len(execs) >= 2
 	res.ProbeN("executions", len(execs))
 	res.ProbeN("map_randoms_from_seam", int(mapRands))
+	res.Probe([]string{"mode.stage_boundaries_only", "mode.any_point", "mode.after_stores", "mode.store_sites_and_pairs"}[mode])
+	res.ProbeN("pairs_same_store_site_in_two_tasks", pairs)
+	res.ProbeN("store_sites_writing_state_shared_between_executions", len(hot))
+	if mode != modeStages {
+		res.Probe("sessions_with_statement_level_interleaving")
+		res.ProbeN("statement_points_passed", int(stmtPoints.Swap(0)))
+		res.ProbeN("statement_level_switches", int(switches.Swap(0)))
+		res.ProbeN("switch_held_back_because_a_lock_was_held", int(heldBack.Swap(0)))
+	}
 	errs := 0
 	for _, e := range execs {
 		if e.out.Err != "" {
